@@ -11,6 +11,7 @@ TraceMaxCalls == 3
 AnyTrees == {<<"V">>}          \* not used for enumeration: TraceInit binds args
 AnyHdr == {"none", "own", "own_ct", "shared"}
 NoDev == {}
+AllOpNames == OpNameModes
 Bools == {TRUE, FALSE}
 
 VARIABLES tid, l
@@ -23,8 +24,8 @@ NC == Len(Traces[tid][1].calls)
 TraceInit ==
   /\ tid \in 1..N /\ l = 2
   /\ args = [c \in Calls |-> IF c <= NC THEN [vars |-> Traces[tid][1].calls[c].tree, hdr |-> Traces[tid][1].calls[c].hdr,
-                                               reuse |-> Traces[tid][1].calls[c].reuse]
-                              ELSE [vars |-> <<"V", <<"absent">>, <<"absent">>>>, hdr |-> "none", reuse |-> FALSE]]
+                                               reuse |-> Traces[tid][1].calls[c].reuse, opname |-> Traces[tid][1].calls[c].opname]
+                              ELSE [vars |-> <<"V", <<"absent">>, <<"absent">>>>, hdr |-> "none", reuse |-> FALSE, opname |-> "named"]]
   /\ callerVars = [c \in Calls |-> args[c].vars]
   /\ pc = [c \in Calls |-> IF c <= NC THEN "start" ELSE "done"] /\ local = [c \in Calls |-> NoReq] /\ wire = [c \in Calls |-> NoReq]
   /\ sharedHdr = "clean" /\ outcome = [c \in Calls |-> 0]
@@ -35,6 +36,7 @@ T_Wire ==
   /\ Has /\ Ev.e = "wire" /\ Take
   /\ Ev.c \in Calls /\ Send(Ev.c)
   /\ wire'[Ev.c] = ObsWire(Ev.obs)
+  /\ Ev.obs.opname = WireOpName(args[Ev.c].opname)
   /\ Ev.obs.query_ok /\ Ev.obs.method = "POST" /\ Ev.obs.body_keys = <<"operationName", "query", "variables">>
 \* the caller's variables object, abstracted right after the call returned, is what the spec says the caller sees
 T_Ret == /\ Has /\ Ev.e = "ret" /\ Take /\ Ev.c \in Calls /\ Return(Ev.c) /\ Ev.got = Ev.c
